@@ -11,3 +11,7 @@ impl DeserializeError {
 pub uninterp spec fn byte_len(s: String) -> nat;
 pub assume_specification [ String::len ] (s: &String) -> (r: usize) ensures r == byte_len(*s);
 opaque_types!(MetadataMap, MetadataList, Int);
+
+/// `s.chars().count()` (R-charcount; not on the unchanged tree: the surface a length check might be edited to use): chars, not bytes - at most the byte length
+pub uninterp spec fn char_count(s: String) -> nat;
+#[verifier::external_body] pub fn str_char_count_(s: &String) -> (r: usize) ensures r == char_count(*s), char_count(*s) <= byte_len(*s) { unimplemented!() }
